@@ -98,7 +98,13 @@ def run(ctx, spec):
         else:
             t = thr * f64.max()
             ref2 = cog_ref(np.where(f64 > t, f64 - t, 0))
-        ctx.close("cog_2d_vs_reference", g2, ref2, tolr * max(nx, ny), "centre_of_gravity:2d_path_reference", dict(wit, threshold=thr))
+        # a pixel within rounding (of the image's own precision) of the threshold may legitimately fall on either side: not judged
+        e_dt = 8 * float(np.finfo(dtype).eps) if np.issubdtype(dtype, np.floating) else 8 * 2.3e-16
+        on_edge = lambda ff_, t_: bool(np.any(np.abs(ff_ - t_) <= e_dt * float(ff_.max())))
+        if thr and on_edge(f64, thr * f64.max()):
+            ctx.count("threshold_ties_not_judged")
+        else:
+            ctx.close("cog_2d_vs_reference", g2, ref2, tolr * max(nx, ny), "centre_of_gravity:2d_path_reference", dict(wit, threshold=thr))
         depth = int(rng.integers(1, 9))
         frames = [content(rng, ny, nx, kmax + 1, dtype) * (1 + (i % 3)) for i in range(depth)]
         stack = np.stack(frames).astype(dtype)
@@ -107,7 +113,11 @@ def run(ctx, spec):
         for f in frames:
             ff = f.astype(np.float64)
             refs.append(cog_ref(ff if thr == 0 else np.where(ff - thr * ff.max() < 0, 0, ff)))
-        ctx.close("cog_stack_vs_reference", gs, np.array(refs).T, tolr * max(nx, ny), "centre_of_gravity:nd_path_reference", dict(wit, threshold=thr, depth=depth))
+        tie = bool(thr) and any(on_edge(f.astype(np.float64), thr * float(f.astype(np.float64).max())) for f in frames)
+        if tie:
+            ctx.count("threshold_ties_not_judged")
+        else:
+            ctx.close("cog_stack_vs_reference", gs, np.array(refs).T, tolr * max(nx, ny), "centre_of_gravity:nd_path_reference", dict(wit, threshold=thr, depth=depth))
         # an absolute floor (min_threshold) lying between the relative thresholds of frames of different brightness
         if thr > 0 and depth >= 2:
             peaks = sorted(float(f.astype(np.float64).max()) for f in frames)
@@ -118,7 +128,10 @@ def run(ctx, spec):
                 ff = f.astype(np.float64)
                 t_ = max(thr * ff.max(), mt)
                 refm.append(cog_ref(np.where(ff - t_ < 0, 0, ff)))
-            ctx.close("cog_stack_min_threshold", gm, np.array(refm).T, tolr * max(nx, ny), "centre_of_gravity:nd_path_reference:min_threshold", dict(wit, threshold=thr, min_threshold=mt, depth=depth))
+            if tie or any(on_edge(f.astype(np.float64), max(thr * float(f.astype(np.float64).max()), mt)) for f in frames):
+                ctx.count("threshold_ties_not_judged")
+            else:
+                ctx.close("cog_stack_min_threshold", gm, np.array(refm).T, tolr * max(nx, ny), "centre_of_gravity:nd_path_reference:min_threshold", dict(wit, threshold=thr, min_threshold=mt, depth=depth))
         ctx.count("stack_vs_frame_groups")
         per = np.array([C.centre_of_gravity(f, thr) for f in frames]).T
         ctx.close("cog_stack_vs_frame", gs, per, tolr * max(nx, ny),
